@@ -646,7 +646,8 @@ def relax(spec, rng, intensity=None):
             c['init_raises'] = rng.choice([
                 ['always', rng.choice(sorted(M.EXC_TYPES))],
                 ['always', 'ValueError']])
-        elif r < 0.66 and len(c['params']) > 1:
+        elif r < 0.66 and len(c['params']) > 1 and not any(
+                q['name'] == 'shared_id' for q in c['params']):
             # drop the discriminating first parameter's uniqueness: rename
             # it to a shared name
             c['params'][0]['name'] = 'shared_id'
